@@ -12,6 +12,14 @@ Two families, chosen by the tape:
     thread-local storage are simulator objects, several caller threads issue
     operations concurrently, and line events inside _team.py, _threadworker.py
     and threadpool.py are pre-emption points with tape-drawn probability.
+
+Both families also contain two environment families (tape-chosen per run):
+  * worker creation that FAILS (the worker/thread factory raises, as a process that cannot get another thread does): the
+    operation that needed the worker reports the error to its caller, everything accepted before and after still has to
+    run exactly once and quit/stop still has to stop every worker;
+  * (b) limit changes over the whole legal range of adjustPoolsize - including 0 ("no workers at all") and the forms that
+    give only one of the two values - checked against a harness-side model of the limit in force (the value last
+    requested), never against the pool's own attributes.
 """
 from twisted._threads import _pool, AlreadyQuit
 from twisted.python import threadpool
@@ -30,9 +38,23 @@ COMPONENTS = {"real": ["twisted._threads._team.Team", "twisted._threads._pool.po
               "stub": ["family a: worker threads (in-memory workers stepped by the scheduler)",
                        "family b: OS thread scheduling and Thread/Queue/Lock/local (detsim.threads baton objects)"]}
 RULE = ("run = family a: 4..30 tape-chosen operations (do task that succeeds/raises, grow, shrink, quit, late do, 'worker i executes its next queued item') on a Team built by the real pool(); "
-        "family b: 1..3 caller threads issuing callInThreadWithCallback/adjustPoolsize/startAWorker/stopAWorker concurrently with pool threads, then stop(); "
+        "family b: 1..3 caller threads issuing callInThreadWithCallback/adjustPoolsize (max 0..3, min 0..max, both values or only one)/startAWorker/stopAWorker concurrently with pool threads, then stop(); "
+        "both: in some runs the worker factory (a: createWorker's worker class, b: ThreadPool.threadFactory) raises with tape-drawn probability; "
         "non-trivial = some task had to wait in the backlog or a shrink/limit change happened while a worker was busy, or (b) a line-level pre-emption fired")
-ASSUMPTIONS = ["family a: the limit function is constant per run", "tasks do not submit further tasks"]
+ASSUMPTIONS = ["family a: the limit function is constant per run", "tasks do not submit further tasks",
+               "a worker creation fails by the factory raising before any thread object exists (a Thread whose start() fails stays in ThreadPool.threads and makes "
+               "stop() raise from join() on the unchanged tree; the statement is silent on that, so that variant is not injected)",
+               "family b: the limit in force is a well-defined number only while no adjustPoolsize/start/stop is in flight; creations that overlap one get no verdict; "
+               "tasks that never ran get no verdict when the limit may have been 0 at stop(), when overlapping limit setters left a set of possible limits containing 0, "
+               "or when start() was aborted by a torn (min, max) pair / a failed worker creation"]
+
+# Share of the family-b runs in which a limit change that RAISES the maximum from (possibly) 0 may keep the minimum at 0.
+# Before the round-4 repair of /repo such a change did not hand the backlog to a worker (nothing grew: workers >= min), so tasks accepted
+# while the limit was 0 stayed stranded until some later submission happened to create a worker, and stop() dropped them: reported as
+# accepted-task-ran-and-reported-once:threadpool:limit-raised-from-zero (fixed entry in known_findings.json).  In the other runs such a
+# change always asks for min >= 1 (adjustPoolsize then grows a worker, which takes the backlog), so everything else about limit 0 is
+# exercised whether or not that defect is present.
+ZERO_RAISE_KEEPS_MIN0_P = 0.6
 
 
 # ------------------------------------------------------------------ family a
@@ -51,6 +73,11 @@ def _do_raise(kind, i):
     if kind == "BaseException":
         raise TaskExit("task %d" % i)
     raise RuntimeError("task %d" % i)
+
+
+class WorkerCreationFailed(RuntimeError):
+    """What the worker/thread factory raises when the simulated environment cannot provide another worker
+    (threading raises RuntimeError("can't start new thread")); a subclass so that the harness recognises its own fault."""
 
 
 def _run_item(sim, item):
@@ -114,13 +141,17 @@ class _Local:
 def family_a(sim):
     limit = sim.draw_choice([2, 1, 3, 0], "limit")
     nops = sim.draw_int(4, 30, "nops")
-    sim.config = {"family": "team", "limit": limit, "nops": nops}
+    create_fail_p = sim.draw_choice([0.0, 0.0, 0.15, 0.35], "create_fail_p")
+    sim.config = {"family": "team", "limit": limit, "nops": nops, "create_fail_p": create_fail_p}
     w = WorldA(sim)
     saved = (_pool.ThreadWorker, _pool.Lock, _pool.LocalStorage, _pool.Queue)
 
     def make_worker(startThread, queue):
         live = sum(1 for x in w.workers if x.quit_calls == 0)
         sim.check("worker-created-within-limit", live < limit, "team", "worker created while %d live workers exist and the limit is %d" % (live, limit))
+        if create_fail_p and sim.draw_bool(create_fail_p, "worker_create_fails"):
+            sim.fault("worker_creation_failed")
+            raise WorkerCreationFailed("can't start new thread")
         return MemWorker(w)
 
     _pool.ThreadWorker = make_worker
@@ -160,13 +191,19 @@ def family_a(sim):
                         wk.in_task = False
 
                 sim.event("do", tid, "raises" if raises else "ok", "after-quit" if quit_done else "")
+                failed = False
                 try:
                     team.do(task)
                     refused = False
                 except AlreadyQuit:
                     refused = True
+                except WorkerCreationFailed:
+                    # the submitter was told that the worker this task needed could not be created: not accepted, no verdict on it
+                    refused = quit_done
+                    failed = True
+                    sim.event("do-failed", tid)
                 sim.check("refused-iff-quit", refused == quit_done, "team", "do() refused=%s but quit=%s" % (refused, quit_done))
-                if not refused:
+                if not refused and not failed:
                     accepted.append(tid)
                     if team.statistics().backloggedWorkCount:
                         flags["backlog"] += 1
@@ -187,6 +224,9 @@ def family_a(sim):
                     refused = False
                 except AlreadyQuit:
                     refused = True
+                except WorkerCreationFailed:
+                    refused = quit_done
+                    sim.event("grow-failed")
                 sim.check("refused-iff-quit", refused == quit_done, "team", "%s refused=%s quit=%s" % (op, refused, quit_done))
                 if busy and op == "shrink":
                     flags["busy_change"] += 1
@@ -231,6 +271,75 @@ def family_a(sim):
 
 # ------------------------------------------------------------------ family b
 
+class LimitModel:
+    """Harness-side model of ThreadPool's (min, max, started): the SETS of values each may hold, given the limit operations issued.
+
+    A limit operation (adjustPoolsize, start) is registered when it begins and when it ends.  While operations are in flight - and
+    after operations that overlapped - the value is only known to be one of several; after an operation that ran alone and gave an
+    explicit value it is exactly that value.  `epoch` changes at every begin/end, so an observer can tell whether the limit was
+    stable between two of its own steps."""
+
+    def __init__(self, mn, mx):
+        self.mn = {mn}
+        self.mx = {mx}
+        self.started = {False}
+        self.epoch = 0
+        self.in_flight = 0
+        self.group_n = 0
+        self.g_mx = set()
+        self.g_mn = set()
+        self.g_explicit = True
+        self.zero_torn = False     # overlapping setters left "0 or something else" as the possible maximum
+        self.zero_seen = False
+
+    def begin(self, mn=None, mx=None, start=False):
+        self.epoch += 1
+        if self.in_flight == 0:
+            self.group_n = 0
+            self.g_mx = set()
+            self.g_mn = set()
+            self.g_explicit = True
+        self.in_flight += 1
+        self.group_n += 1
+        if mx is None or mn is None:
+            self.g_explicit = False    # the operation re-stores whatever it reads
+        if mx is not None:
+            self.g_mx.add(mx)
+            self.mx.add(mx)
+        if mn is not None:
+            self.g_mn.add(mn)
+            self.mn.add(mn)
+        if start:
+            self.started = self.started | {True}
+        if 0 in self.mx:
+            self.zero_seen = True
+
+    def end(self, stored=True, start=False):
+        self.epoch += 1
+        self.in_flight -= 1
+        if start:
+            self.started = {True}
+        if self.in_flight == 0:
+            if self.group_n == 1:
+                if stored:
+                    if self.g_mx:
+                        self.mx = set(self.g_mx)
+                    if self.g_mn:
+                        self.mn = set(self.g_mn)
+            else:
+                if self.g_explicit and stored:
+                    self.mx = set(self.g_mx)
+                    self.mn = set(self.g_mn)
+                if 0 in self.mx and len(self.mx) > 1:
+                    self.zero_torn = True
+
+    def stable_limit(self):
+        """The limit in force if it is a single well-defined number right now, else None."""
+        if self.in_flight or len(self.mx) != 1 or len(self.started) != 1:
+            return None
+        return min(self.mx) if True in self.started else 0
+
+
 def family_b(sim):
     maxthreads = sim.draw_int(1, 3, "max")
     minthreads = 0 if sim.draw_bool(0.4, "min0") else sim.draw_int(0, maxthreads, "min")   # min 0: no worker exists until one is needed
@@ -240,25 +349,34 @@ def family_b(sim):
     policy = sim.draw_choice(["uniform", "pct"], "sched_policy")
     if policy == "pct":
         preempt = sim.draw_choice([0.004, 0.015], "pct_change_p")   # few, long-lasting pre-emptions
-    sim.config = {"family": "threadpool", "min": minthreads, "max": maxthreads, "callers": ncallers, "preempt_p": preempt, "start_late": start_late, "policy": policy}
+    create_fail_p = sim.draw_choice([0.0, 0.0, 0.2, 0.5], "create_fail_p")
+    keep_min0 = sim.draw_bool(ZERO_RAISE_KEEPS_MIN0_P, "raise_from_zero_may_keep_min0")
+    adjust_w = sim.draw_choice([1, 1, 5], "adjust_weight")     # some runs churn the limit: several changes between few submissions
+    if keep_min0:
+        adjust_w = 5
+    sim.config = {"family": "threadpool", "min": minthreads, "max": maxthreads, "callers": ncallers, "preempt_p": preempt, "start_late": start_late, "policy": policy,
+                  "create_fail_p": create_fail_p, "raise_from_zero_may_keep_min0": keep_min0, "adjust_weight": adjust_w}
+    L = LimitModel(minthreads, maxthreads)
     sched = T.Scheduler(sim, trace_files=("_threads/_team.py", "_threads/_threadworker.py", "python/threadpool.py") if preempt else (), preempt_p=preempt, policy=policy)
     saved = (_pool.Queue, _pool.Lock, _pool.LocalStorage, _pool.ThreadWorker)
     real_TW = _pool.ThreadWorker
     quit_calls = []
     created = []
-    state = {"limit_moved": False}
+    state = {"faults_armed": False, "creating_epoch": None}
 
     class RecordingWorker(real_TW):
         def __init__(self, startThread, queue):
             live = len(created) - len(quit_calls)
-            lim = pool.max if pool.started else 0
-            # the limit is only a well-defined number while nobody changes it concurrently
-            # (adjustPoolsize / stop() racing with the creator's own check get no verdict)
-            if not state["limit_moved"] and not stop_called[0]:
+            # the limit is only a well-defined number while nobody changes it concurrently: it must have been one number, the one last
+            # requested through adjustPoolsize()/the constructor (0 before start()), from the moment the creator was asked for a worker
+            # until now (adjustPoolsize / start() / stop() racing with the creator's own check get no verdict)
+            lim = L.stable_limit()
+            if lim is not None and state["creating_epoch"] == L.epoch and not stop_called[0]:
+                sim.probe("creation_checked_against_requested_limit")
                 sim.check("worker-created-within-limit", live < lim, "threadpool", "worker thread created while %d live workers exist and the limit is %d" % (live, lim))
             self._idx = len(created)   # Team keeps idle workers in a set: hash by creation order, not by address
+            real_TW.__init__(self, startThread, queue)   # raises when the thread factory does: then no worker came into existence
             created.append(self)
-            real_TW.__init__(self, startThread, queue)
 
         def __hash__(self):
             return self._idx
@@ -281,7 +399,14 @@ def family_b(sim):
     stop_called = [False]
     try:
         pool = threadpool.ThreadPool(minthreads, maxthreads, name="pool")
-        pool.threadFactory = sched.thread_factory
+
+        def thread_factory(*a, **kw):
+            if state["faults_armed"] and create_fail_p and sim.draw_bool(create_fail_p, "thread_create_fails"):
+                sim.fault("thread_creation_failed")
+                raise WorkerCreationFailed("can't start new thread")
+            return sched.thread_factory(*a, **kw)
+
+        pool.threadFactory = thread_factory
         in_coord = [0]
         real_coordinate = pool._team._coordinateThisTask
 
@@ -299,6 +424,7 @@ def family_b(sim):
             # a cooperative pre-emption point right after a refused creation (the creator has just read the limit and the
             # worker counts; whatever the coordinator does next is based on that reading): legal anywhere for real threads,
             # placed here because this is where a concurrent limit change / start() matters
+            state["creating_epoch"] = L.epoch    # creations are serialised by the coordinator: one slot is enough
             w = real_create()
             if w is None:
                 sim.probe("creation_refused_by_limit")
@@ -307,7 +433,10 @@ def family_b(sim):
 
         pool._team._createWorker = create
         if not start_late:
+            L.begin(start=True)
             pool.start()
+            L.end(start=True)
+        state["faults_armed"] = True
         ids = [0]
 
         def make_task(i, raises, steps):
@@ -335,7 +464,7 @@ def family_b(sim):
 
         def caller(k, nops):
             for _ in range(nops):
-                op = sim.draw_weighted([("submit", 8), ("adjust", 1), ("startw", 1), ("stopw", 1), ("yield", 2)], "cop")
+                op = sim.draw_weighted([("submit", 8), ("adjust", adjust_w), ("startw", 1), ("stopw", 1), ("yield", 2)], "cop")
                 if op == "submit":
                     ids[0] += 1
                     i = ids[0]
@@ -348,24 +477,63 @@ def family_b(sim):
                             submitted_before_stop.append(i)
                     except AlreadyQuit:
                         sim.check("refused-only-after-stop", stop_called[0], "threadpool", "submission refused before stop()")
+                    except WorkerCreationFailed:
+                        sim.event("submit-failed", i)    # the submitter was told: not accepted, no verdict on this task
                 elif op == "adjust":
-                    mx = sim.draw_int(1, 3, "newmax")
-                    mn = sim.draw_int(0, mx, "newmin")
+                    # the whole legal range: max 0 means "no workers at all" (reactor.suggestThreadPoolSize(0) does that)
+                    mx = sim.draw_weighted([(1, 3), (2, 3), (3, 2), (0, 3)], "newmax")
+                    from_zero = 0 in L.mx and mx > 0
+                    if from_zero:
+                        mn = 0 if keep_min0 else sim.draw_int(1, mx, "newmin")     # see ZERO_RAISE_KEEPS_MIN0_P
+                    else:
+                        mn = sim.draw_int(0, mx, "newmin")
+                    form = "both"
+                    if not from_zero and L.in_flight == 0 and len(L.mx) == 1 and len(L.mn) == 1:
+                        # the forms that give one value only are legal when the pair stays ordered (known here: nobody else is changing it now)
+                        form = sim.draw_weighted([("both", 6), ("max_only", 1 if mx >= min(L.mn) else 0), ("min_only", 1 if mn <= min(L.mx) else 0)], "adjust_form")
+                    if form == "max_only":
+                        mn = None
+                    elif form == "min_only":
+                        mx = None
                     sim.event("adjust", mn, mx)
-                    state["limit_moved"] = True
+                    if mx == 0:
+                        sim.probe("limit_set_to_zero")
+                    if from_zero:
+                        sim.probe("limit_raised_from_zero")
+                        if mn == 0:
+                            state["raised_from_zero_keeping_min0"] = True
+                            sim.probe("limit_raised_from_zero_keeping_min0")
+                    if form != "both":
+                        sim.probe("limit_changed_one_value_only")
+                    L.begin(mn, mx)
+                    alone = L.group_n == 1
+                    stored = True
                     try:
-                        pool.adjustPoolsize(mn, mx)
+                        if form == "both":
+                            pool.adjustPoolsize(mn, mx)
+                        elif form == "max_only":
+                            pool.adjustPoolsize(maxthreads=mx)
+                        else:
+                            pool.adjustPoolsize(mn)
                     except AlreadyQuit:
                         pass
+                    except WorkerCreationFailed:
+                        state["grow_failed_in_adjust"] = True     # values stored, the workers the new minimum asks for could not be created
                     except AssertionError:
+                        stored = False
                         # adjustPoolsize stores min and max in two steps; a concurrent adjust/start can observe the torn pair
-                        # and trip its own sanity assertion.  The statement says nothing about that: no verdict.
+                        # and trip its own sanity assertion.  The statement says nothing about that: no verdict - but a request that
+                        # names both values (0 <= min <= max) cannot be out of order whatever anybody else does, and one that names a
+                        # single value which is in order with the other one cannot either while nobody else changes the pair.
                         sim.probe("torn_limit_pair_seen")
+                        sim.check("legal-limit-change-accepted", not (form == "both" or (alone and L.group_n == 1)), "threadpool",
+                                  "adjustPoolsize(%r, %r) (%s) was rejected although the pair is in order" % (mn, mx, form))
+                    L.end(stored=stored)
                     sim.probe("limit_changed")
                 elif op == "startw":
                     try:
                         pool.startAWorker()
-                    except AlreadyQuit:
+                    except (AlreadyQuit, WorkerCreationFailed):
                         pass
                 elif op == "stopw":
                     try:
@@ -376,9 +544,11 @@ def family_b(sim):
                 else:
                     sched.point("caller-yield")
 
-        # a late start is raced by few operations per caller: a submission stranded by the race stays visible (a later submission would rescue it)
-        callers = [sched.spawn("caller%d" % k, caller, k, sim.draw_int(1, 3 if start_late else 8, "nops")) for k in range(ncallers)]
+        # a late start is raced by few operations per caller: a submission stranded by the race stays visible (a later submission would rescue it);
+        # likewise the runs in which a limit raised from 0 may keep min 0
+        callers = [sched.spawn("caller%d" % k, caller, k, sim.draw_int(1, 3 if start_late else 4 if keep_min0 else 8, "nops")) for k in range(ncallers)]
         concurrent_stop = sim.draw_bool(0.3, "concurrent_stop")
+        limit_maybe_zero_at_stop = False
         starter = None
         if start_late:
             # let callers queue work before the pool starts, then start it - on a thread of its own, so that start() interleaves
@@ -392,8 +562,13 @@ def family_b(sim):
                     sim.probe("start_during_coordination")   # reach probe: start() begins while a submission is being coordinated
                     if not pool._team.statistics().backloggedWorkCount:
                         sim.probe("start_during_coordination_backlog_not_yet_recorded")
+                L.begin(start=True)
                 try:
                     pool.start()
+                except WorkerCreationFailed:
+                    # start() could not create a worker it wanted: it reports that to its caller, half-way like below.  No verdict on never-ran tasks.
+                    state["start_aborted_by_torn_limits"] = True
+                    pool.started = True
                 except AssertionError:
                     # see adjust: start() read min/max between a concurrent adjustPoolsize's two stores and tripped its own assert
                     # half-way (after `started = True`, before the backlog was handed to workers).  The statement makes no claim about
@@ -401,6 +576,7 @@ def family_b(sim):
                     sim.probe("torn_limit_pair_seen")
                     state["start_aborted_by_torn_limits"] = True
                     pool.started = True
+                L.end(start=True)
                 sim.probe("started_with_backlog") if pool._team.statistics().backloggedWorkCount else None
 
             starter = sched.spawn("starter", do_start)
@@ -414,6 +590,7 @@ def family_b(sim):
             if starter is not None:
                 sched.run(max_steps=20000, until=lambda: starter.state == "done")   # stop() is only called on a started pool
             stop_called[0] = True
+            limit_maybe_zero_at_stop = 0 in L.mx
             sim.event("stop")
             with sim.guard("stop-raised", "threadpool"):
                 pool.stop()   # main thread: block_until drives the scheduler while joining
@@ -427,9 +604,17 @@ def family_b(sim):
         for i, r in results.items():
             sim.check("result-exactly-once", len(r) == 1 and ran.get(i) == 1, "threadpool", "task %d: onResult %d times, ran %s" % (i, len(r), ran.get(i)))
         missing = [i for i in submitted_before_stop if ran.get(i, 0) != 1 or len(results.get(i, [])) != 1]
+        witness = "threadpool"
         if state.get("start_aborted_by_torn_limits"):
             missing = [i for i in missing if ran.get(i, 0) > 1 or len(results.get(i, [])) > 1]   # never-ran gets no verdict; twice still does
-        sim.check("accepted-task-ran-and-reported-once", not missing, "threadpool",
+        elif limit_maybe_zero_at_stop or L.zero_torn or (L.zero_seen and state.get("grow_failed_in_adjust")):
+            # "unless no worker could ever be created": the limit was (possibly) 0 when the pool was stopped, or concurrent limit setters
+            # (no claim about those) / a failed creation stood between a backlog collected under limit 0 and the worker that would take it
+            sim.probe("never_ran_no_verdict_limit_zero")
+            missing = [i for i in missing if ran.get(i, 0) > 1 or len(results.get(i, [])) > 1]
+        elif state.get("raised_from_zero_keeping_min0"):
+            witness = "threadpool:limit-raised-from-zero"
+        sim.check("accepted-task-ran-and-reported-once", not missing, witness,
                   "tasks submitted before stop() that did not run/report exactly once: %r (ran=%r)" % (missing[:5], {i: ran.get(i) for i in missing[:5]}))
         # late submission after stop(): silently ignored, never run
         before = dict(ran)
@@ -458,4 +643,12 @@ MUTANTS = [
     "threadpool.inContext: onResult called twice -> CAUGHT result-exactly-once",
     "_team._coordinateThisTask: _busyCount not incremented -> CAUGHT worker-created-within-limit",
     "_team._coordinateThisTask: prefer creating a worker over an idle one -> survives (equivalent for the property: still within the limit)",
+    "round 4 (limit range 0..3 with a harness-side limit model; failing worker factory):",
+    "threadpool.adjustPoolsize: self.max = max(maxthreads, 1) -> CAUGHT worker-created-within-limit:threadpool",
+    "threadpool.currentLimit: return self.max or 1 -> CAUGHT worker-created-within-limit:threadpool",
+    "threadpool.adjustPoolsize: None defaults written as `x or self.x` (0 taken for 'not given') -> CAUGHT worker-created-within-limit:threadpool / legal-limit-change-accepted",
+    "_threadworker.LockWorker.do: `local.working = None` dropped from the finally (stale re-entrancy marker after a raising job) -> CAUGHT accepted-task-ran-once:team / "
+    "all-workers-stopped-after-quit:team / accepted-task-ran-and-reported-once:threadpool",
+    "threadpool.adjustPoolsize + `grow(0); grow(backlog)` after the min/max adjustment (candidate repair of limit-raised-from-zero) -> check holds with ZERO_RAISE_KEEPS_MIN0_P = 1.0; "
+    "without the serialising grow(0) a submission pre-empted between the limit read and the backlog append is still stranded -> CAUGHT",
 ]
